@@ -429,6 +429,14 @@ class Executor:
             return Prim("char", z3.BitVecVal(ord(m.group(1)), 32))
         if t.startswith("ZeroSized: "):
             return Agg(t[11:], {})
+        m = re.fullmatch(r"(i8|i16|i32|i64|i128|isize|u8|u16|u32|u64|u128|usize)::(MIN|MAX)", t)
+        if m:
+            w, sg = PRIM_INT[m.group(1)]
+            if m.group(2) == "MIN":
+                n = -(1 << (w - 1)) if sg else 0
+            else:
+                n = (1 << (w - 1)) - 1 if sg else (1 << w) - 1
+            return Prim(m.group(1), z3.BitVecVal(n, w))
         # function items / other constants: uninterpreted but stable by text
         if re.match(r"[\w<{]", t):
             return FnItem(t)
